@@ -96,6 +96,20 @@ func c03Step(server bool, prop string) {
 			verifCover("rejected")
 		}
 	}
+	if prop == "C14" {
+		// what the filter gets to see: only counters of packets that authenticated
+		if !opened {
+			verifAssert(ss.window == oldWin, "C14: a packet that does not authenticate never consumes its counter or moves the window (or a forger could make the filter reject the genuine packet)")
+			verifCover("forged")
+		} else if n >= 32 {
+			ctr := uint64(msg[8])<<56 | uint64(msg[9])<<48 | uint64(msg[10])<<40 | uint64(msg[11])<<32 | uint64(msg[12])<<24 | uint64(msg[13])<<16 | uint64(msg[14])<<8 | uint64(msg[15])
+			verifAssert(oldWin.Check(ctr), "C14: only a counter the filter accepted reaches the AEAD")
+			if ctr < 1<<63 {
+				verifAssert(!ss.window.Check(ctr), "C14: the counter of an authenticated packet is recorded")
+			}
+			verifCover("genuine")
+		}
+	}
 	if prop == "C15" {
 		if ss.remoteAddr != oldAddr {
 			verifAssert(opened, "C15: the peer address moves only after a datagram authenticated")
@@ -169,3 +183,10 @@ func VH_C15_send_goes_to_current_peer_address() {
 	verifCover("sent")
 	_ = net.IPv4len
 }
+
+//verif:prop C14
+//verif:replay none
+//verif:stub hop.computer/hop/kravatte.NewSANSE = sessNewSANSE
+//verif:bounds as VH_C03_server_receive_step
+//verif:cover forged;genuine
+func VH_C14_only_authenticated_packets_reach_the_filters_memory() { c03Step(true, "C14") }
